@@ -2,8 +2,8 @@
 //
 // Two case sets:
 //
-//	c03core: the unexported receiveLog through the verif hook; every add and
-//	         every missingSeqNumbers call is recorded.
+//	c03core: the unexported receiveLog through the verif hook; every add,
+//	         every missingSeqNumbers call and every get call is recorded.
 //	c03api:  the real GeneratorInterceptor through its public API
 //	         (NewGeneratorInterceptor, BindRemoteStream, the returned reader,
 //	         UnbindRemoteStream, BindRTCPWriter, Close). The ticker loop is run
@@ -35,7 +35,7 @@ import (
 
 type coreCase struct {
 	Size int64      `json:"size"`
-	Ops  [][2]int64 `json:"ops"` // {0, seq} add, {1, skipLastN} missingSeqNumbers
+	Ops  [][2]int64 `json:"ops"` // {0, seq} add, {1, skipLastN} missingSeqNumbers, {2, seq} get (output [1] / [0])
 	Outs [][]int64  `json:"outs"`
 }
 
@@ -61,9 +61,16 @@ func runCore(size int64, ops [][2]int64) coreCase {
 		panic(fmt.Sprintf("newReceiveLog(%d): %v", size, err))
 	}
 	for _, op := range ops {
-		if op[0] == 0 {
+		switch op[0] {
+		case 0:
 			l.Add(uint16(op[1])) //nolint:gosec
-		} else {
+		case 2:
+			if l.Get(uint16(op[1])) { //nolint:gosec
+				c.Outs = append(c.Outs, []int64{1})
+			} else {
+				c.Outs = append(c.Outs, []int64{0})
+			}
+		default:
 			c.Outs = append(c.Outs, safeMissing(l, uint16(op[1]))) //nolint:gosec
 		}
 	}
@@ -100,11 +107,18 @@ func (c coreCase) toCase(buckets []string) cq.Case {
 	}
 	outs := make([]string, len(c.Outs))
 	triv := true
-	for i, o := range c.Outs {
-		outs[i] = runs(o)
-		if len(o) > 0 {
+	qi := 0
+	for _, op := range c.Ops { // non-trivial: a missingSeqNumbers query returned a non-empty list
+		if op[0] == 0 {
+			continue
+		}
+		if qi < len(c.Outs) && op[0] == 1 && len(c.Outs[qi]) > 0 {
 			triv = false
 		}
+		qi++
+	}
+	for i, o := range c.Outs {
+		outs[i] = runs(o)
 	}
 
 	return cq.Case{Coq: cq.T(cq.Z(c.Size), cq.L(ops), cq.L(outs)), JSON: c, Buckets: buckets, Trivial: triv}
@@ -284,10 +298,41 @@ func genCore(r *rand.Rand) (int64, [][2]int64, []string) {
 		if r.Intn(8) == 0 {
 			m = r.Intn(4)
 		}
-		ops = append(ops, [2]int64{0, g.next(m)})
+		seq := g.next(m)
+		ops = append(ops, [2]int64{0, seq})
 		if q < maxq && r.Intn(100) < qprob {
 			ops = append(ops, [2]int64{1, pickSkip(r, size, bk)})
 			q++
+		}
+		if r.Intn(100) < 30 { // receiveLog.get at the boundaries of its answer
+			var t int64
+			switch r.Intn(8) {
+			case 0:
+				t = seq
+				bk["get-just-added"] = true
+			case 1:
+				t = g.hi - size + int64(r.Intn(3)) - 1 // window edge: hi-size-1, hi-size, hi-size+1
+				bk["get-window-edge"] = true
+			case 2:
+				t = g.hi + 1 + int64(r.Intn(3))
+				bk["get-ahead"] = true
+			case 3:
+				t = g.hi - 32767 - int64(r.Intn(3)) // half range behind
+				bk["get-half-range"] = true
+			case 4:
+				t = g.hi - int64(r.Intn(int(size)))
+				bk["get-in-window"] = true
+			case 5:
+				t = g.hi - size - int64(r.Intn(int(size))) // one window back: same slot as a live number
+				bk["get-slot-alias"] = true
+			case 6:
+				t = g.hi
+				bk["get-highest"] = true
+			default:
+				t = int64(r.Intn(65536))
+				bk["get-uniform"] = true
+			}
+			ops = append(ops, [2]int64{2, t & 0xFFFF})
 		}
 	}
 	if q < maxq+1 {
@@ -637,6 +682,173 @@ func genAPI(r *rand.Rand) (apiCase, []string) { //nolint:gocognit,cyclop
 	return c, bs
 }
 
+// ---------------------------------------------------------------- wrap stream (thorough tier only)
+
+// wrapCase is the real-tick variant of the F3 witness: the real ticker loop
+// runs free (interval of a few microseconds) for Cycles > 65536 cycles. A
+// counting stream (SSRC 999) is unbound, re-bound and fed 0, 2 in every cycle,
+// so exactly one tick per cycle NACKs 999:[1]; the harness waits for that NACK
+// before it starts the next cycle, hence at least Cycles ticks run. Stream
+// 1111 keeps 5 missing at its limit (max 1) for the whole run: it must be
+// requested by the first tick and never again. Ticks that run in between send
+// nothing; in the fixed code they change nothing either.
+type wrapCase struct {
+	Size       int64     `json:"size"`
+	Skip       int64     `json:"skip"`
+	Max        int64     `json:"max"`
+	Cycles     int64     `json:"cycles"`
+	IntervalNs int64     `json:"interval_ns"`
+	Outs       []wrapOut `json:"outs"` // per-cycle outputs, run-length compressed
+}
+
+type wrapOut struct {
+	Out []nackOut `json:"out"`
+	N   int64     `json:"n"`
+}
+
+const wrapStream, wrapCounter = 1111, 999
+
+func runWrap(in wrapCase) wrapCase { //nolint:gocognit,cyclop
+	c := wrapCase{Size: in.Size, Skip: in.Skip, Max: in.Max, Cycles: in.Cycles, IntervalNs: in.IntervalNs}
+	f, err := nack.NewGeneratorInterceptor(
+		nack.GeneratorSize(uint16(in.Size)),             //nolint:gosec
+		nack.GeneratorSkipLastN(uint16(in.Skip)),        //nolint:gosec
+		nack.GeneratorMaxNacksPerPacket(uint16(in.Max)), //nolint:gosec
+		nack.GeneratorInterval(time.Duration(in.IntervalNs)),
+	)
+	if err != nil {
+		panic(err)
+	}
+	ii, err := f.NewInterceptor("")
+	if err != nil {
+		panic(err)
+	}
+	gi, _ := ii.(*nack.GeneratorInterceptor)
+	buf := make([]byte, 1500)
+
+	var mu sync.Mutex
+	var writes []nackOut
+	sCh := make(chan struct{}, 64)
+	writer := interceptor.RTCPWriterFunc(func(pkts []rtcp.Packet, _ interceptor.Attributes) (int, error) {
+		mu.Lock()
+		defer mu.Unlock()
+		for _, p := range pkts {
+			nk, ok := p.(*rtcp.TransportLayerNack)
+			if !ok {
+				writes = append(writes, nackOut{SSRC: -1})
+
+				continue
+			}
+			o := nackOut{SSRC: int64(nk.MediaSSRC), Seqs: []int64{}}
+			for i := range nk.Nacks {
+				for _, s := range nk.Nacks[i].PacketList() {
+					o.Seqs = append(o.Seqs, int64(s))
+				}
+			}
+			writes = append(writes, o)
+			if o.SSRC == wrapCounter {
+				select {
+				case sCh <- struct{}{}:
+				default:
+				}
+			}
+		}
+
+		return 0, nil
+	})
+	fb := []interceptor.RTCPFeedback{{Type: "nack"}}
+	var next []byte
+	under := interceptor.RTPReaderFunc(func(b []byte, a interceptor.Attributes) (int, interceptor.Attributes, error) {
+		return copy(b, next), a, nil
+	})
+	feed := func(rd interceptor.RTPReader, ssrc, seq int64) {
+		pkt := rtp.Packet{Header: rtp.Header{Version: 2, PayloadType: 96, SequenceNumber: uint16(seq), SSRC: uint32(ssrc), Timestamp: 1}, Payload: []byte{1}} //nolint:gosec
+		raw, merr := pkt.Marshal()
+		if merr != nil {
+			panic(merr)
+		}
+		next = raw
+		_, _, _ = rd.Read(buf, interceptor.Attributes{})
+	}
+	take := func() []nackOut {
+		mu.Lock()
+		ws := append([]nackOut{}, writes...)
+		writes = nil
+		mu.Unlock()
+		sort.SliceStable(ws, func(i, j int) bool { return ws[i].SSRC < ws[j].SSRC })
+
+		return ws
+	}
+	var outs [][]nackOut
+	mainRd := gi.BindRemoteStream(&interceptor.StreamInfo{SSRC: wrapStream, RTCPFeedback: fb}, under)
+	feed(mainRd, wrapStream, 4)
+	feed(mainRd, wrapStream, 6)
+	cycleOps := func() {
+		gi.UnbindRemoteStream(&interceptor.StreamInfo{SSRC: wrapCounter})
+		rd := gi.BindRemoteStream(&interceptor.StreamInfo{SSRC: wrapCounter, RTCPFeedback: fb}, under)
+		feed(rd, wrapCounter, 0)
+		feed(rd, wrapCounter, 2)
+		feed(mainRd, wrapStream, 6) // duplicate of the highest: no effect on the log
+	}
+	wait := func(cy int64) {
+		select {
+		case <-sCh:
+		case <-time.After(10 * time.Second):
+			panic(fmt.Sprintf("c03wrap: no tick within 10 s in cycle %d", cy))
+		}
+	}
+	// cycle 0 with the loop stopped afterwards (Close waits for every write of the ticks that ran),
+	// so that the NACK of 1111 is attributed to the first cycle exactly
+	cycleOps()
+	gi.BindRTCPWriter(writer)
+	wait(0)
+	_ = gi.Close()
+	nack.VerifGenReopen(gi)
+	outs = append(outs, take())
+	for len(sCh) > 0 {
+		<-sCh
+	}
+	// the remaining cycles against the free-running loop
+	gi.BindRTCPWriter(writer)
+	for cy := int64(1); cy < in.Cycles; cy++ {
+		cycleOps()
+		wait(cy)
+		outs = append(outs, take())
+	}
+	_ = gi.Close()
+	if rest := take(); len(rest) > 0 { // writes of ticks after the last collection
+		last := append(outs[len(outs)-1], rest...)
+		sort.SliceStable(last, func(i, j int) bool { return last[i].SSRC < last[j].SSRC })
+		outs[len(outs)-1] = last
+	}
+	for _, o := range outs {
+		k := fmt.Sprint(o)
+		if n := len(c.Outs); n > 0 && fmt.Sprint(c.Outs[n-1].Out) == k {
+			c.Outs[n-1].N++
+		} else {
+			c.Outs = append(c.Outs, wrapOut{Out: o, N: 1})
+		}
+	}
+
+	return c
+}
+
+func (c wrapCase) toCase(buckets []string) cq.Case {
+	outs := make([]string, len(c.Outs))
+	for i, t := range c.Outs {
+		ps := make([]string, len(t.Out))
+		for j, p := range t.Out {
+			ps[j] = cq.T(cq.Z(p.SSRC), runs(p.Seqs))
+		}
+		outs[i] = cq.T(cq.L(ps), cq.Z(t.N))
+	}
+
+	return cq.Case{
+		Coq:  cq.T(cq.T(cq.Z(c.Size), cq.Z(c.Skip), cq.Z(c.Max)), cq.Z(c.Cycles), cq.L(outs)),
+		JSON: c, Buckets: buckets, Trivial: false,
+	}
+}
+
 // ---------------------------------------------------------------- main
 
 func main() {
@@ -658,6 +870,10 @@ func main() {
 		})
 	}
 	core, api := cores[0], apis[0]
+	wrap := &cq.Set{
+		Name: "c03wrap", Import: "IV.Check.C03WrapCheck", CaseType: "wrap_case",
+		Checks: []string{"wrap_mismatches", "wrap_spec_failures"},
+	}
 	all := append(append([]*cq.Set{}, cores...), apis...)
 	load := func(path, bucket string) {
 		var raw map[string]interface{}
@@ -666,6 +882,10 @@ func main() {
 			var c coreCase
 			cq.LoadReplay(path, &c)
 			core.Cases = append(core.Cases, runCore(c.Size, c.Ops).toCase([]string{bucket}))
+		} else if strings.HasPrefix(set, "c03wrap") {
+			var c wrapCase
+			cq.LoadReplay(path, &c)
+			wrap.Cases = append(wrap.Cases, runWrap(c).toCase([]string{bucket}))
 		} else {
 			var c apiCase
 			cq.LoadReplay(path, &c)
@@ -674,8 +894,11 @@ func main() {
 	}
 	if o.Replay != "" {
 		load(o.Replay, "replay")
-		cq.Write(o, "replay", []*cq.Set{core, api}, nil, nil)
-		_ = all
+		sets := []*cq.Set{core, api}
+		if len(wrap.Cases) > 0 {
+			sets = append(sets, wrap)
+		}
+		cq.Write(o, "replay", sets, nil, nil)
 
 		return
 	}
@@ -683,14 +906,14 @@ func main() {
 		load(f, "corpus")
 	}
 
-	ncore := o.Scale(780, 9000)
+	ncore := o.Scale(780, 20000)
 	for i := 0; i < ncore; i++ {
 		size, ops, bk := genCore(r)
 		cs := cores[i%nCoreSets]
 		cs.Cases = append(cs.Cases, runCore(size, ops).toCase(bk))
 	}
 
-	napi := o.Scale(168, 1200)
+	napi := o.Scale(168, 2400)
 	type job struct {
 		in apiCase
 		bk []string
@@ -716,9 +939,18 @@ func main() {
 		as := apis[i%nAPISets]
 		as.Cases = append(as.Cases, res[i].toCase(jobs[i].bk))
 	}
+	extra := map[string]interface{}{"api_tick_method": "one loop iteration per BindRTCPWriter/Close cycle, sentinel stream marks the tick"}
+	if o.Tier == "thorough" && o.N == 0 {
+		// real-tick variant of the F3 witness: more than 2^16 ticks of the real ticker loop
+		w := runWrap(wrapCase{Size: 64, Skip: 0, Max: 1, Cycles: 65600, IntervalNs: 5000})
+		wrap.Cases = append(wrap.Cases, w.toCase([]string{"real-ticks>=65600", "limit-held-over-2^16-ticks"}))
+		all = append(all, wrap)
+		extra["wrap_tick_method"] = "free-running ticker loop (interval 5 us); a counting stream is NACKed once per cycle, " +
+			"the harness waits for that NACK before the next cycle: at least 65600 real ticks"
+	}
 	cq.Write(o, "core: receiveLog histories (8..100 add calls with missingSeqNumbers queries in between, sizes 64..32768, "+
 		"traffic modes in-order/window-edge/half-range/uniform), non-trivial = at least one query returned a non-empty list; "+
 		"api: GeneratorInterceptor histories over 1..3 nack streams + optional non-nack stream + sentinel, 4..13 ticks, "+
 		"non-trivial = at least one NACK for a non-sentinel stream",
-		all, map[string]interface{}{"api_tick_method": "one loop iteration per BindRTCPWriter/Close cycle, sentinel stream marks the tick"}, nil)
+		all, extra, nil)
 }
